@@ -9,6 +9,7 @@ import (
 	cmttypes "github.com/cometbft/cometbft/types"
 
 	evertypes "github.com/EscanBE/evermint/v12/types"
+	"github.com/EscanBE/evermint/v12/utils/verifhook"
 )
 
 const (
@@ -77,7 +78,9 @@ func (eis *EVMIndexerService) OnStart() error {
 			select {
 			case msg := <-blockHeadersChan:
 				eventDataHeader := msg.Data.(cmttypes.EventDataNewBlockHeader)
+				verifhook.At("indexer.header", "recv", eventDataHeader.Header.Height)
 				if eventDataHeader.Header.Height > latestBlock {
+					verifhook.At("indexer.header", "set", eventDataHeader.Header.Height)
 					latestBlock = eventDataHeader.Header.Height
 					// notify
 					select {
@@ -86,10 +89,14 @@ func (eis *EVMIndexerService) OnStart() error {
 					}
 				}
 			case <-eis.Quit():
+				verifhook.At("indexer.header", "quit")
 				quitSignalReBroadcast <- struct{}{}
+				verifhook.At("indexer.header", "done")
 				break processBlockHeader
 			case <-quitSignalReBroadcast:
+				verifhook.At("indexer.header", "requit")
 				quitSignalReBroadcast <- struct{}{}
+				verifhook.At("indexer.header", "done")
 				break processBlockHeader
 			default:
 				time.Sleep(50 * time.Millisecond)
@@ -131,14 +138,19 @@ func (eis *EVMIndexerService) OnStart() error {
 	for {
 		select {
 		case <-eis.Quit():
+			verifhook.At("indexer.main", "quit")
 			quitSignalReBroadcast <- struct{}{}
+			verifhook.At("indexer.main", "done")
 			return nil
 		case <-quitSignalReBroadcast:
+			verifhook.At("indexer.main", "requit")
 			quitSignalReBroadcast <- struct{}{}
+			verifhook.At("indexer.main", "done")
 			return nil
 		default:
 			// process new block
 		}
+		verifhook.At("indexer.main", "check", lastIndexedBlock)
 		if lastIndexedBlock >= latestBlock {
 			// nothing to index. wait for signal of new block
 
@@ -162,6 +174,7 @@ func (eis *EVMIndexerService) OnStart() error {
 			continue
 		}
 		for i := lastIndexedBlock + 1; i <= latestBlock; i++ {
+			verifhook.At("indexer.main", "index", i)
 			block, err := eis.client.Block(ctx, &i)
 			if err != nil {
 				if !isIndexerMarkedReady && markFailedToIndexBlock(i) {
